@@ -71,7 +71,8 @@ def cases(draw, allow_outside=True):
                         if p["cls"] in OUTSIDE:
                             p["cls"] = "interior"
                 cl.append({"number": draw(st.one_of(st.integers(0, 1000).map(float), st.floats(0.0, 1e6))), "v": pv, "h": ph})
-            ops.append({"op": kind, "clusters": cl})
+            # 'object': columns of Python floats, as pyxel's own charge_deposition(particle_direction='orthogonal') hands them over
+            ops.append({"op": kind, "clusters": cl, "coltype": draw(st.sampled_from(["float64"] * 5 + ["object"]))})
         elif kind == "remove":
             ops.append({"op": kind, "idx": draw(st.lists(st.integers(0, 30), min_size=1, max_size=4))})
         else:
@@ -144,7 +145,7 @@ def run_ops(case, rec):
     ch = det.charge
     acc = np.zeros((rows, cols))  # array-mode accumulator
     clusters = None  # None = array mode; else list of [label, number, row|None, col|None]
-    seen = {"array_add": False, "cluster_add": False, "read_between": False, "special": False}
+    seen = {"array_add": False, "cluster_add": False, "read_between": False, "special": False, "object_columns": False}
 
     def expected():
         if clusters is None:
@@ -186,8 +187,11 @@ def run_ops(case, rec):
                 ph = np.array([_position(c["h"], cols, hs) for c in op["clusters"]], dtype=float)
                 num = np.array([c["number"] for c in op["clusters"]], dtype=float)
                 z = np.zeros(n)
-                ch.add_charge(particle_type="e", particles_per_cluster=num, init_energy=z, init_ver_position=pv, init_hor_position=ph,
-                              init_z_position=z, init_ver_velocity=z, init_hor_velocity=z, init_z_velocity=z)
+                ct = op.get("coltype", "float64")
+                if ct == "object":
+                    seen["object_columns"] = True
+                ch.add_charge(particle_type="e", particles_per_cluster=num.astype(ct), init_energy=z, init_ver_position=pv.astype(ct), init_hor_position=ph.astype(ct),
+                              init_z_position=z.astype(ct), init_ver_velocity=z, init_hor_velocity=z, init_z_velocity=z)
                 if clusters is None:
                     clusters = to_clusters_from_array(acc) if np.any(acc != 0) else []
                     acc = np.zeros((rows, cols))
